@@ -169,6 +169,7 @@ func GenC05(r *h.Rng, tier string, emit func(string)) {
 		emit(genSbrkProgram(r).String())
 		st.Inc("sbrk-program")
 	}
+	genRange(r, 3000, emit, st)
 	h.EmitStats(emit, st)
 }
 
